@@ -120,6 +120,9 @@ func solveOne(o *Obligation, opt SolveOpts, idx int) {
 		o.Raw = err.Error()
 		return
 	}
+	if opt.NoRetry[o.Name] && !opt.All && opt.Secs > 3 {
+		opt.Secs = 3 // an open known finding: expected not to discharge, no point in waiting in the quick tier
+	}
 	want := "unsat"
 	if o.Cover {
 		want = "sat"
